@@ -18,8 +18,6 @@ empty string is `-`.
   scan-single <hex> | scan-multi <hex>        → none | some <idx>
   pattern-single <hex> | pattern-multi <hex>  → ok <hex> <hex-rest> | unterminated | malformed | panic
   detect <hex-source>          → UnterminatedString | …
-  ml-hyps <hex-value>          → ok | blank-run | exotic-trailing-ws | blank-run+exotic-trailing-ws
-                                 (which hypothesis of C17.escape_multi_roundtrip the value violates)
   span <hex-input> <offset>    → <offset> <line> <column> <length>
 -/
 open QM QM.Text
@@ -82,7 +80,7 @@ def bracketed1 (opn : List Char) (item : Doc) : Doc :=
     `sequence_doc` → `chain_doc` (binding with a single term) → `tuple_doc`/`bracketed` → `field_doc`
     → `chain_doc` → `multiline_string_doc`; no trivia. -/
 def mlValueDoc : Nat → List Char → Doc
-  | 0, v => multilineDoc v
+  | 0, _ => multilineDoc 0
   | n + 1, v =>
     -- field_doc: concat [leading, value, trailing]; value = chain_doc(field chain)
     let inner := mlValueDoc n v
@@ -96,9 +94,12 @@ def mlProgramDoc (depth : Nat) (v : List Char) : Doc :=
   let seq := Doc.mkGroup (.concat [item, .nest 0 (.concat [])])
   Doc.join .hardline [seq]
 
-/-- model of `format_program` on that program -/
+/-- model of `format_program` on that program: lay out (with the placeholder line), collapse blank
+    lines, then put the literal's content lines back. -/
 def fmtMl (depth : Nat) (v : List Char) : List Char :=
-  collapseBlanks (print (mlProgramDoc depth v) 100)
+  match expandLiterals (collapseBlanks (print (mlProgramDoc depth v) 100)) [multilineLines v] with
+  | some out => out
+  | none => "<panic: literal index out of range>".toList
 
 /-- The raw text between the `"""` delimiters of the (only) multi-line literal in `out`. -/
 def rawBetweenTriple (out : List Char) : Option (List Char) :=
@@ -181,12 +182,6 @@ def textStep (req : List Sx) : String :=
       else if op = "pattern-single" then renderLit (singleLinePattern cs)
       else if op = "pattern-multi" then renderLit (multilinePattern cs)
       else if op = "detect" then (detectErrorKind cs).name
-      else if op = "ml-hyps" then
-        match noBlankRun cs, noExoticTrailingWs cs with
-        | true, true => "ok"
-        | false, true => "blank-run"
-        | true, false => "exotic-trailing-ws"
-        | false, false => "blank-run+exotic-trailing-ws"
       else "bad-request"
   | [.atom "fmt-ml", k, .atom h] =>
     match k.asNat, hexToChars h with
